@@ -10,7 +10,8 @@
 //!                         `=<value>` | `E` (error) | `P` (panic) | `F` (did not terminate within bound)
 //!   X <id> <hex|-> <n>    the same for all 256^n suffixes after the prefix, as a digest + panic count
 //!   T <id> <tok>...       a value tree written with TLVWrite::tlv/start_container/end_container and,
-//!                         independently, with TLV::bytes_iter; tokens L,<tag>,<val> | N,<tag>,<k> | E
+//!                         independently, with TLV::bytes_iter; tokens L,<tag>,<val> | N,<tag>,<k> | E;
+//!                         then read back with the real reader (tree) and re-encoded through tlv_iter
 //!   W <id> <tok>          one call of the minimal-width writer API (i8..u64, str, utf8, ...), also
 //!                         through the TLV::i8.. constructors + bytes_iter
 //!   D <id> <kind> <seed>  derived ToTLV/FromTLV encoders of wire structs: round trip and hostile
@@ -482,10 +483,33 @@ fn run_writer(kind: &str, id: &str, toks: &[&str], out: &mut String) {
         Err(_) => writeln!(out, "{} {} P", kind, id).unwrap(),
         Ok((Err(_), _)) => writeln!(out, "{} {} E", kind, id).unwrap(),
         Ok((Ok(a), b)) => {
-            if a == b {
-                writeln!(out, "{} {} {}", kind, id, hex(&a)).unwrap()
+            let bytes = if a == b {
+                hex(&a)
             } else {
-                writeln!(out, "{} {} {}!=iter:{}", kind, id, hex(&a), hex(&b)).unwrap()
+                format!("{}!=iter:{}", hex(&a), hex(&b))
+            };
+            if kind == "T" {
+                // read the written bytes back with the real reader (tag(), value(),
+                // container()?.iter() recursively) and re-encode that element through
+                // ToTLV::tlv_iter + TLV::bytes_iter
+                let e = TLVElement::new(&a);
+                let readback = probe(|| tree_s(&e), |s| s);
+                let readback = readback.strip_prefix('=').unwrap_or(&readback).to_string();
+                let reenc = probe(
+                    || {
+                        let t = e.tag()?;
+                        let mut v = Vec::new();
+                        for x in ToTLV::tlv_iter(&e, t) {
+                            v.extend(x?.bytes_iter());
+                        }
+                        Ok(v)
+                    },
+                    |v| hex_or_dash(&v),
+                );
+                let reenc = reenc.strip_prefix('=').unwrap_or(&reenc).to_string();
+                writeln!(out, "{} {} {} {} {}", kind, id, bytes, readback, reenc).unwrap()
+            } else {
+                writeln!(out, "{} {} {}", kind, id, bytes).unwrap()
             }
         }
     }
